@@ -170,4 +170,20 @@ example : (Shape.multipoint .xyzm BBox.default []).shapetype = .multipointZ := r
 example : tryInto .polyline (Shape.point .xy Pt.default) = .error (.mismatch .polyline .point) := by
   simp [tryInto, Shape.shapetype, Shape.variant, Variant.shapetype]
 
+/-- a file without records (the header declares no more than itself) read under ANY target —
+generically or as any of the 13 concrete types, whatever type the header names — is the empty
+list: the header's type is not consulted -/
+theorem empty_file_any_target (o : Orient) (tg : Target) (shp : Bytes) (h : Header) (rest : Bytes)
+    (hh : readHeader shp = .ok h rest) (hl : h.fileLength ≤ 50) :
+    readAll o tg shp none = .ok [] := by
+  unfold readAll RState.open
+  simp only [hh]
+  unfold RState.fuel
+  simp only [Nat.add_zero]
+  have hf : ((wordsToBytes h.fileLength).getD 0).toNat ≤ Const.headerSize := by
+    unfold wordsToBytes Const.headerSize
+    split <;> simp <;> omega
+  rw [show shp.length + 2 = (shp.length + 1) + 1 from rfl]
+  simp only [RState.iterAll, RState.iterNext, if_pos hf, collectShapes]
+
 end Shp.C06
